@@ -121,6 +121,32 @@ func TestCheck(t *testing.T) {
 		elec := &spb.Uint128{High: uint64(r.Intn(2)), Low: 2 + uint64(r.Intn(100))}
 		probs = append(probs, w.SendElection(s, elec)...)
 		total := 30 + r.Intn(200)
+		if i%250 == 7 {
+			// scale: one operation releases many hundreds of held operations - every one of them
+			// is answered (the response that carries them may be as large as it takes)
+			n := 600 + r.Intn(500)
+			var held []gen.OpSpec
+			for k := 0; k < n; k++ {
+				sp := g.MkOp(spb.AFTOperation_ADD, canon.V4, g.S.Default, 0, false)
+				sp.Op.GetIpv4().Prefix = fmt.Sprintf("10.%d.%d.0/24", 100+k/250, k%250)
+				sp.Op.GetIpv4().Ipv4Entry = &aftpb.Afts_Ipv4Entry{NextHopGroup: gen.U(77)}
+				held = append(held, sp)
+			}
+			probs = append(probs, w.SendOps(s, held, elec)...)
+			nh := g.MkOp(spb.AFTOperation_ADD, canon.NH, g.S.Default, 0, false)
+			nhg := g.MkOp(spb.AFTOperation_ADD, canon.NHG, g.S.Default, 0, false)
+			nhg.Op.GetNextHopGroup().Id = 77
+			nhg.Op.GetNextHopGroup().NextHopGroup = &aftpb.Afts_NextHopGroup{NextHop: []*aftpb.Afts_NextHopGroup_NextHopKey{{Index: nh.Op.GetNextHop().GetIndex(), NextHop: &aftpb.Afts_NextHopGroup_NextHop{Weight: gen.U(1)}}}}
+			if len(probs) == 0 {
+				probs = append(probs, w.SendOps(s, []gen.OpSpec{nhg}, elec)...)
+			}
+			if len(probs) == 0 {
+				probs = append(probs, w.SendOps(s, []gen.OpSpec{nh}, elec)...)
+				probs = append(probs, w.CompareState()...)
+			}
+			run.Count("operations", int64(n+2))
+			run.Count("cases_releasing_hundreds_of_held_operations_at_once", 1)
+		}
 		var doneIDs []uint64
 		sentTimes := map[uint64]int{}
 		for sent := 0; sent < total && len(probs) == 0 && s.Open; {
